@@ -389,6 +389,33 @@ func genBatch(g *Gen) []txr {
 		}
 		txs = append(txs, tx)
 	}
+	if g.r.Intn(8) == 0 {
+		// "read, write, read again" on one fresh object inside one batch, each step its own transaction: what a later
+		// submission reads is what the earlier ones of the same batch wrote
+		g.n++
+		id := fmt.Sprintf("rw%d", g.n)
+		rd := func() txr {
+			return txr{cmds: []*t_aio.Command{{Kind: t_aio.ReadPromise, ReadPromise: &t_aio.ReadPromiseCommand{Id: id}}}}
+		}
+		var wr *t_aio.Command
+		if g.r.Intn(2) == 0 {
+			pc := g.createPromise()
+			pc.Id = id
+			tc := g.createTask()
+			tc.Id = "__invoke:" + id
+			wr = &t_aio.Command{Kind: t_aio.CreatePromiseAndTask, CreatePromiseAndTask: &t_aio.CreatePromiseAndTaskCommand{PromiseCommand: pc, TaskCommand: tc}}
+		} else {
+			pc := g.createPromise()
+			pc.Id = id
+			wr = &t_aio.Command{Kind: t_aio.CreatePromise, CreatePromise: pc}
+		}
+		txs = append(txs, rd(), txr{cmds: []*t_aio.Command{wr}}, rd())
+		if g.r.Intn(2) == 0 {
+			up := g.CommandOf(t_aio.UpdatePromise)
+			up.UpdatePromise.Id = id
+			txs = append(txs, txr{cmds: []*t_aio.Command{up}}, rd())
+		}
+	}
 	return txs
 }
 
